@@ -89,6 +89,8 @@ func init() {
 	models[dec+"Power"] = func(m *Machine, _ *Frame, _ *ssa.CallCommon, a []Val) Val { aDec(m); return decOp("dpow", term(a[0]), term(a[1])) }
 	models[dec+"TruncateInt"] = func(m *Machine, _ *Frame, _ *ssa.CallCommon, a []Val) Val { aDec(m); return App(SInt, "dtrunc", term(a[0])) }
 	models[dec+"RoundInt"] = func(m *Machine, _ *Frame, _ *ssa.CallCommon, a []Val) Val { aDec(m); return App(SInt, "dround", term(a[0])) }
+	models[dec+"MulTruncate"] = func(m *Machine, _ *Frame, _ *ssa.CallCommon, a []Val) Val { aDec(m); return decOp("dmultrunc", term(a[0]), term(a[1])) }
+	models[dec+"Ceil"] = func(m *Machine, _ *Frame, _ *ssa.CallCommon, a []Val) Val { aDec(m); return decOp("dceil", term(a[0])) }
 	models[dec+"TruncateDec"] = func(m *Machine, _ *Frame, _ *ssa.CallCommon, a []Val) Val { aDec(m); return decOp("dtruncdec", term(a[0])) }
 	models[pkgMath+".LegacyZeroDec"] = func(m *Machine, _ *Frame, _ *ssa.CallCommon, a []Val) Val { return DecInt(0) }
 	models[pkgMath+".LegacyOneDec"] = func(m *Machine, _ *Frame, _ *ssa.CallCommon, a []Val) Val { return DecInt(1) }
@@ -286,6 +288,39 @@ func init() {
 			}
 			panic(unsupported(fmt.Sprintf("NewCoins of %T", a[0])))
 		}
+	}
+	// NewDecCoinsFromCoins(coins...): the same denoms, every amount as a decimal
+	models[pkgSdk+".NewDecCoinsFromCoins"] = func(m *Machine, _ *Frame, _ *ssa.CallCommon, a []Val) Val {
+		m.E.declCoinFuns(false)
+		m.E.declCoinFuns(true)
+		c := m.asCoins(a[0])
+		if c.Dec {
+			panic(unsupported("NewDecCoinsFromCoins of decimal coins"))
+		}
+		out := m.freshCoins(true, "deccoins", true)
+		m.AssumeT(T(SBool, fmt.Sprintf("(forall ((d Str)) (! (= (select %s d) (dofint (select %s d))) :pattern ((select %s d))))", out.M.S, c.M.S, out.M.S)))
+		return out
+	}
+	// DecCoins.MulDec / MulDecTruncate(d): every amount multiplied (rounded / truncated); TruncateDecimal: integer parts and the remainders
+	for name, op := range map[string]string{"MulDec": "dmul", "MulDecTruncate": "dmultrunc"} {
+		op := op
+		models["("+pkgSdk+".DecCoins)."+name] = func(m *Machine, _ *Frame, _ *ssa.CallCommon, a []Val) Val {
+			m.E.declCoinFuns(true)
+			c := m.asCoins(a[0])
+			out := m.freshCoins(true, "muldec", true)
+			m.AssumeT(T(SBool, fmt.Sprintf("(forall ((d Str)) (! (= (select %s d) (%s (select %s d) %s)) :pattern ((select %s d))))", out.M.S, op, c.M.S, term(a[1]).S, out.M.S)))
+			return out
+		}
+	}
+	models["("+pkgSdk+".DecCoins).TruncateDecimal"] = func(m *Machine, _ *Frame, _ *ssa.CallCommon, a []Val) Val {
+		m.E.declCoinFuns(true)
+		m.E.declCoinFuns(false)
+		c := m.asCoins(a[0])
+		ints := m.freshCoins(false, "truncint", true)
+		rem := m.freshCoins(true, "truncrem", true)
+		m.AssumeT(T(SBool, fmt.Sprintf("(forall ((d Str)) (! (= (select %s d) (dtrunc (select %s d))) :pattern ((select %s d))))", ints.M.S, c.M.S, ints.M.S)))
+		m.AssumeT(T(SBool, fmt.Sprintf("(forall ((d Str)) (! (= (select %s d) (- (select %s d) (dofint (dtrunc (select %s d))))) :pattern ((select %s d))))", rem.M.S, c.M.S, c.M.S, rem.M.S)))
+		return &TupleV{Vs: []Val{ints, rem}}
 	}
 	models[pkgSdk+".NewCoins"] = newCoins(false)
 	models[pkgSdk+".NewDecCoins"] = newCoins(true)
